@@ -1093,6 +1093,18 @@ func (ex *Exec) newRef(prefix string) string {
 	r := e.freshConst(prefix, "Ref")
 	e.assume(fmt.Sprintf("(and ((_ is obj) %s) (not (select %s %s)))", r, ex.st.get("alloc"), r))
 	ex.st.set("alloc", fmt.Sprintf("(store %s %s true)", ex.st.get("alloc"), r))
+	// nothing points to a fresh object yet (for every pointer-valued field known so far)
+	var hs []string
+	for h, srt := range e.hsort {
+		if srt == "(Array Ref Ref)" {
+			hs = append(hs, h)
+		}
+	}
+	sort.Strings(hs)
+	for _, h := range hs {
+		cur := ex.st.get(h)
+		e.assume(fmt.Sprintf("(forall ((x Ref)) (! (not (= (select %s x) %s)) :pattern ((select %s x))))", cur, r, cur))
+	}
 	return r
 }
 
